@@ -758,7 +758,7 @@ def run(replay=None):
         return {f: rt[f] for f in ('r', 'fmt', 'ep')}
 
     gen = common.tlc_eval('KeyFormatsEval', [{'k': 'gen', 'key': spec_key(k), 'route': spec_route(rt), 'hist': hi, 'fmts': fs}
-                                              for k, rt, hi, fs in zip(keys, routes, hists, plan)], procs=8)
+                                              for k, rt, hi, fs in zip(keys, routes, hists, plan)], procs=6)
     t0 = _t('gen', t0)
     want = []
     pairs = set()
@@ -770,7 +770,7 @@ def run(replay=None):
             pairs.update((route_name(rt), c) for c in g['classes'])
         pairs.update(('xprv', c) for c in g['xcover'])
     items = [[p, list(ref.sha256d(bytes(p))[:4])] for p in want]
-    chunk = 25
+    chunk = max(25, (len(items) + 11) // 12)      # about a dozen TLC processes
     strs = common.tlc_eval('KeyFormatsEval', [{'k': 'str', 'items': items[i:i + chunk]}
                                                for i in range(0, len(items), chunk)]
                            + [{'k': 'cover', 'pairs': sorted(list(p) for p in pairs)}])
